@@ -71,6 +71,11 @@ impl fmt::Display for State {
 }
 
 impl State {
+    #[cfg(feature = "verif_hooks")]
+    pub fn verif_index(&self) -> usize {
+        self.0
+    }
+
     pub fn pascal_case(&self) -> String {
         format!("State{}", self.0)
     }
